@@ -130,3 +130,34 @@ Proof.
       * intros [[_ K]|[-> _]]; [discriminate K|reflexivity].
   - split; [discriminate|]. intros [[_ K]|[_ [K _]]]; discriminate K.
 Qed.
+
+(** ** demote_block(names): refused exactly when one of the names is not a block of the grid ([pop(None)]: TypeError);
+    a call that returns moved blocks to the end of the list and did nothing else: no block is lost, the lookup is untouched *)
+Lemma demote_block_raises_iff ns : forall g e, Inv g ->
+  (demote_block g ns = Raise e <-> e = TypeError /\ exists n, In n ns /\ bget g n = None).
+Proof.
+  induction ns as [|n r IH]; cbn [demote_block]; intros g e I.
+  - split; [discriminate|]. intros [_ [n [[] _]]].
+  - destruct (bget g n) as [i|] eqn:E.
+    + destruct (inv_bget g n i I E) as [Hi _]. rewrite (proj2 (mem_In _ _) Hi).
+      assert (I1 : Inv (set_blist g (lremove (blist g) i ++ [i]))).
+      { apply inv_perm_blist; [exact I|]. apply Permutation_lremove_snoc. exact Hi. }
+      rewrite (IH _ e I1).
+      assert (Eg : bget (set_blist g (lremove (blist g) i ++ [i])) = bget g) by (unfold bget; gs; reflexivity).
+      rewrite Eg. split; intros [He [n' [Hn' K]]]; (split; [exact He|]).
+      * exists n'. split; [right; exact Hn'|exact K].
+      * destruct Hn' as [<-|Hn']; [congruence|]. exists n'. split; [exact Hn'|exact K].
+    + split.
+      * intro H. inversion H. split; [reflexivity|]. exists n. split; [left; reflexivity|exact E].
+      * intros [-> _]. reflexivity.
+Qed.
+
+Lemma demote_block_keeps_blocks ns : forall g g', demote_block g ns = Ok g' ->
+  Permutation (blist g) (blist g') /\ bdict g' = bdict g /\ bn g' = bn g.
+Proof.
+  induction ns as [|n r IH]; cbn [demote_block]; intros g g' H.
+  - inversion H; subst. auto.
+  - destruct (bget g n) as [i|]; [|discriminate]. destruct (mem i (blist g)) eqn:M; [|discriminate].
+    apply IH in H. gs in H. destruct H as [P [Ed En]]. split; [|split; [exact Ed|exact En]].
+    eapply Permutation_trans; [|exact P]. apply Permutation_lremove_snoc. apply mem_In. exact M.
+Qed.
